@@ -387,7 +387,8 @@ fn apply_corruption(rec: &Path, orig: &[u8], c: &Corruption, other: &[u8]) {
 const CORRUPTION_LAYOUTS: [&str; 2] = ["file-path", "file+cmd"];
 
 /// number of worker cases: for each layout, corruptions x {tree unchanged, tree changed}
-pub fn corruption_space(thorough: bool) -> Vec<(usize, usize, bool)> {
+/// third component: 0 = tree unchanged, 1 = an input changed, 2 = the output deleted (after the corruption)
+pub fn corruption_space(thorough: bool) -> Vec<(usize, usize, u8)> {
     let mut v = vec![];
     for (li, name) in CORRUPTION_LAYOUTS.iter().enumerate() {
         let l = layouts().into_iter().find(|l| l.name == *name).unwrap();
@@ -398,8 +399,9 @@ pub fn corruption_space(thorough: bool) -> Vec<(usize, usize, bool)> {
         let len = record_bytes(&sc).expect("record").len();
         let _ = std::fs::remove_dir_all(&root);
         for ci in 0..corruptions(len, thorough).len() {
-            v.push((li, ci, false));
-            v.push((li, ci, true));
+            v.push((li, ci, 0));
+            v.push((li, ci, 1));
+            v.push((li, ci, 2));
         }
     }
     v
@@ -449,8 +451,11 @@ pub fn worker(thorough: bool, start: usize, end: usize) {
             };
             let c = corruptions(orig.len(), thorough)[ci].clone();
             apply_corruption(&sc.rec, &orig, &c, &other);
-            if changed {
+            if changed == 1 {
                 write_clocked(&root.join("src/a.txt"), b"input changed after the record was written");
+            }
+            if changed == 2 {
+                let _ = std::fs::remove_file(root.join(l2.writes[0]));
             }
             let next = run_cycle(&sc, &l2, Crash::Never, Outcome::Exit(0), None);
             let _ = std::fs::remove_dir_all(&root);
@@ -462,9 +467,9 @@ pub fn worker(thorough: bool, start: usize, end: usize) {
                 Ok((c, CycleEnd::Returned { result, spawned })) => {
                     let _ = handle.join();
                     if result.starts_with("Err") {
-                        break ("ERROR".to_string(), format!("corruption {} (tree changed: {}): the next invocation returned {}", c, changed, result));
-                    } else if changed && (!spawned || result == "Skipped") {
-                        break ("SKIPPED-CHANGED".to_string(), format!("corruption {} with a changed input: the next invocation skipped the target", c));
+                        break ("ERROR".to_string(), format!("corruption {} (tree variant {}): the next invocation returned {}", c, changed, result));
+                    } else if changed != 0 && (!spawned || result == "Skipped") {
+                        break ("SKIPPED-CHANGED".to_string(), format!("corruption {} with {}: the next invocation skipped the target", c, if changed == 1 { "a changed input" } else { "the declared output deleted" }));
                     } else {
                         break ("OK".to_string(), format!("{} -> {}", c, result));
                     }
@@ -507,8 +512,11 @@ pub fn corruptions_check(rep: &mut Report) {
     let mut seen = BTreeSet::new();
     let mut by_class: BTreeMap<String, (String, serde_json::Value)> = BTreeMap::new();
     for r in &res {
+        if r.verdict == "RANGE-ABANDONED" {
+            continue;
+        }
         seen.insert(r.idx);
-        let (li, ci, changed) = space.get(r.idx).cloned().unwrap_or((0, 0, false));
+        let (li, ci, changed) = space.get(r.idx).cloned().unwrap_or((0, 0, 0));
         let class = |d: &str| -> String {
             // corruption kind without its offset
             d.split("corruption ").nth(1).map(|s| s.split('(').next().unwrap_or("").to_string()).unwrap_or_default()
@@ -531,7 +539,7 @@ pub fn corruptions_check(rep: &mut Report) {
             _ => rep.machinery_errors.push(format!("corruption case {}: {} {}", r.idx, r.verdict, r.detail)),
         }
     }
-    if seen.len() != space.len() {
+    if seen.len() != space.len() && !res.iter().any(|r| r.verdict == "DIED") {
         rep.machinery_errors.push(format!("only {} of {} corruption cases reported", seen.len(), space.len()));
     }
     for (fp, (d, r)) in by_class {
@@ -558,7 +566,7 @@ pub fn check_c05(rep: &mut Report) {
     rep.add_u64("distinct_nontrivial", st);
     rep.set("exhaustive", json!(true));
     rep.set("rule", json!("cases = (layout, starting state, crash point | partial write of k bytes for every k | script outcome) and (layout, record corruption, tree changed?); each case runs the real build cycle up to the crash, forgets it, and runs a fresh invocation on the same tree; distinct = distinct case descriptors"));
-    rep.set("bounds", json!({"crash_points": "P0 decided, P1 old record deleted, script running, P3 script done, P4 state computed, P5.k after k bytes for every k, P6 saved", "outcomes": "exit 0/1/255, signal 9/15, launch failure", "starting_states": "no record; record then input changed; record then output deleted (script re-creates identical content)", "layouts": ["file-path", "directory", "file+cmd", "cmd-only"], "corruptions": "every prefix, every byte x {0x00,0xFF,^0x01,^0x80}, empty, text, directory, another target's record, trailing bytes, length prefixes 2^40 and 2^63 at every 8-byte offset; each with tree unchanged and changed"}));
+    rep.set("bounds", json!({"crash_points": "P0 decided, P1 old record deleted, script running, P3 script done, P4 state computed, P5.k after k bytes for every k, P6 saved", "outcomes": "exit 0/1/255, signal 9/15, launch failure", "starting_states": "no record; record then input changed; record then output deleted (script re-creates identical content)", "layouts": ["file-path", "directory", "file+cmd", "cmd-only"], "corruptions": "every prefix, every byte x {0x00,0xFF,^0x01,^0x80}, empty, text, directory, another target's record, trailing bytes, length prefixes 2^40 and 2^63 at every 8-byte offset; each with the tree unchanged, an input changed, the output deleted"}));
     rep.assumptions.push("a crash = the cycle future is never polled again and is mem::forget-ed; a fresh invocation then runs on the same tree".into());
     rep.assumptions.push("signal interruption through the actor (termination message while points are armed) is explored by the C06/C10 engine, see DESIGN".into());
 }
